@@ -194,11 +194,20 @@ def random_config(rng, closed=True):
     masses = None
     if not all_atom or rng.random() < 0.3:
         masses = {name: float(rng.choice([10, 44, 72, 104.5])) for name in frags}
+        if rng.random() < 0.3:
+            same = float(rng.choice([36, 72, 165]))
+            masses = {name: same for name in frags}
     cfg = dict(frag_string='{' + ','.join('#%s=%s' % kv for kv in frags.items()) + '}', polymer_reactivities=poly,
                fragment_reactivities=fragr, terminal_bonds=terminal, fragment_masses=masses, all_atom=all_atom,
                seed=rng.randrange(10 ** 6), start_fragment=rng.choice([None, None, 'U0']),
                target_units=rng.choice([1, 2, 5, 12, 40]))
     feats = {'all_atom' if all_atom else 'coarse', 'poly_' + mode, 'nfrag_%d' % len(frags)}
+    if masses and rng.random() < 0.5:
+        # given masses are multiples of 0.5, so sums are exact floats and a target that is itself such a sum can be
+        # hit EXACTLY by the running weight: the documented loop stops there
+        vals = sorted(masses.values())
+        cfg['exact_target'] = float(sum(rng.choice(vals) for _ in range(cfg['target_units']))) if rng.random() < 0.9 else 0.0
+        feats.add('exact_target')
     if terminal:
         feats.add('terminals')
     if fragr:
@@ -224,6 +233,8 @@ def make_sampler(cfg):
 
 def target_of(cfg, sampler):
     masses = sampler.fragment_masses
+    if cfg.get('exact_target') is not None:
+        return cfg['exact_target']
     return (cfg['target_units'] - 0.37) * (sum(masses.values()) / len(masses))
 
 
